@@ -564,6 +564,7 @@ pub fn run(tier: Tier) {
     let _ = Bounded::new(rand::thread_rng(), SIGN_DRAW_LIMIT);
     one_variant::<V512>(&mut ctx, tier);
     one_variant::<V1024>(&mut ctx, tier);
+    crate::e5::run_part(&mut ctx, "sign");
     ctx.sample(json!({"direction":"our signature -> reference","reframing":"header 0x59 -> 0x39 (0x5a -> 0x3a), trailing zero bytes of the fixed-length body stripped"}));
     ctx.assume("reference = PQClean 'clean' Falcon-512/1024 as vendored from pqcrypto-falcon 0.3.0, linked with a deterministic randombytes (SHAKE256 counter stream) so that reference key generation and signing are replayable");
     ctx.assume("direction (4) of the plan (both verifiers on engineered triples) is part of C02, where PQClean's verdict is compared on every triple in the common domain");
@@ -572,6 +573,9 @@ pub fn run(tier: Tier) {
 
 pub fn replay(case: &Value) -> Result<Option<String>, String> {
     let kind = case.get("kind").and_then(|k| k.as_str()).ok_or("no kind")?;
+    if kind == "e5" || kind == "e5-setup" {
+        return crate::e5::replay(case);
+    }
     let variant = case.get("variant").and_then(|x| x.as_u64()).ok_or("variant")?;
     let mut t = Tally::default();
     match kind {
